@@ -43,7 +43,9 @@ def repo():
 
 def scope(tier):
     return dict(buffers=[4, 5, 6, 7, 8, 12, 16, 256], windows=[1, 2, 3, 8],
-                fault_bound=1 if tier == "quick" else 2)
+                fault_bound=1 if tier == "quick" else 3,
+                fault_lengths=21 if tier == "quick" else 41,
+                faults2_bound=2 if tier == "quick" else 3)
 
 
 def shards(tier):
@@ -54,7 +56,7 @@ def shards(tier):
     out.append(dict(kind="structs"))
     out.append(dict(kind="fill_link"))
     for op in ("read", "write"):
-        for k in range(4):
+        for k in range(4 if tier == "quick" else 41):
             out.append(dict(kind="faults", op=op, k=k))
     for k in range(4):
         out.append(dict(kind="faults2", k=k))
@@ -307,8 +309,9 @@ def run_faults(params, tier, acc):
     bound = scope(tier)["fault_bound"]
     op = params["op"]
     k = params["k"]
-    for n in range(0, 21):
-        if n % 4 != k:
+    nl = scope(tier)["fault_lengths"]
+    for n in range(0, nl):
+        if (n % 4 != k) if tier == "quick" else (n != k):
             continue
         for addr in (0x60000000, 0x60000001):
             case = dict(op=op + "_faults", buffer=8, window=3, address=addr,
@@ -319,8 +322,8 @@ def run_faults(params, tier, acc):
             def run(ch):
                 one_fault_execution(case, ch, acc)
             explore(run, bound=bound, budget=300)
-    acc.sample(dict(kind="faults", op=op, lengths=[n for n in range(21)
-                                                   if n % 4 == k]))
+    acc.sample(dict(kind="faults", op=op, k=k, lengths_below=nl,
+                    bound=bound))
 
 
 def one_fault_execution(case, ch, acc):
@@ -389,7 +392,7 @@ def run_faults2(params, tier, acc):
 
     def run(ch):
         two_ops_execution(case, ch, acc)
-    n = explore(run, bound=2, budget=300)
+    n = explore(run, bound=scope(tier)["faults2_bound"], budget=300)
     acc.nontrivial += n
     acc.sample(dict(kind="faults2", ops=case["ops"], executions=n))
 
